@@ -129,6 +129,7 @@ type Obl struct {
 	Tier    string
 	Timeout int
 	ExpectSat bool // vacuity/cover check: expected sat
+	Isolated bool // proved from the earlier clauses of the contract only (context assumptions dropped)
 	Raw     string // lemma: raw SMT body (asserts incl. the negated goal)
 	// filled by solver
 	Result  string
